@@ -126,10 +126,10 @@ class Built:
         if dk in ("const", "tmpl"):
             kw["default"] = copy.deepcopy(s["dv"])
         elif dk == "factory":
-            log, pid, dv = self.log, _pid(s, "fac", s["key"]), s["dv"]
+            log, fpid, dv = self.log, _pid(s, "fac", s["key"]), s["dv"]
 
             def factory():
-                log.hit("factory", pid)
+                log.hit("factory", fpid)
                 return copy.deepcopy(dv)
 
             kw["default_factory"] = factory
@@ -141,10 +141,10 @@ class Built:
             if kind == "container":
                 kw["domain"] = copy.deepcopy(payload)
             elif kind == "pred":
-                log, pid, p = self.log, _pid(s, "dom", s["key"]), pred(payload)
+                log, dpid, p = self.log, _pid(s, "dom", s["key"]), pred(payload)
 
                 def dompred(x):
-                    log.hit("dompred", pid)
+                    log.hit("dompred", dpid)
                     return p(x)
 
                 kw["domain"] = dompred
